@@ -3,9 +3,11 @@
    language without flags, every store, every decision sequence, every terminating run (also found by the
    fuelled interpreter), the lowered program started in ANY store produces the same ordered trace of
    user atoms and user tests, the same outcome and consumes the same decisions.
-   The language includes try/except/else/finally and with under their exception-free semantics (atoms do
-   not raise: handlers never run, else runs when the body completes, finally always runs; a jump out of a
-   finally clause and `raise` have no rule, so runs reaching them are outside the statement).
+   The language includes `raise`, try/except/else/finally and with: exceptions come from `raise` statements,
+   the handler an exception is dispatched to is chosen by the next decision (over-approximating matching
+   by type, which the passes do not touch), else runs when the body completes, finally always runs.  A
+   finally clause that does not complete normally (overriding the pending jump / exception) has no
+   rule, so runs reaching that are outside the statement; atoms (user statements) do not raise.
    Model = Passes.brk_block, tied to malt/converters/break_statements.py by structural comparison of
    its output with the real pass on generated programs (tools/props/c01.py). *)
 From Coq Require Import List Arith Bool.
@@ -31,6 +33,17 @@ Example ex_lowered_has_flag : fst (fst (brk_block 5 0 ex_b)) =
   BCons (SSet 0 false) (BCons (SWhile (CAndNot 0 (CUser 1))
      (BCons (SAtom 2) (BCons (SIf (CUser 3) (BCons (SSet 0 true) (BCons SContinue BNil)) BNil) (BCons (SAtom 4) BNil)))
      (BCons (SIf (CNot 0) (BCons (SAtom 5) BNil) BNil) BNil)) BNil).
+Proof. vm_compute. reflexivity. Qed.
+(* non-vacuity with exceptions: while t1: try: (if t2: break); raise r3  except: (if t4: break); a5  -- the body
+   raises, handler 0 is selected (decision 0) and breaks on the second iteration *)
+Definition ex_e : block :=
+  BCons (SWhile (CUser 1) (BCons (STry (BCons (SIf (CUser 2) (BCons SBreak BNil) BNil) (BCons (SRaise 3) BNil))
+                                      (HCons (BCons (SIf (CUser 4) (BCons SBreak BNil) BNil) (BCons (SAtom 5) BNil)) HNil) BNil BNil) BNil) BNil) BNil.
+Example ex_e_run : exec_block 40 ex_e (fun _ => false) [1; 0; 0; 0; 1; 0; 0; 1] = ([1; 2; 3; 4; 5; 1; 2; 3; 4], ONormal, (fun _ => false), []).
+Proof. vm_compute. reflexivity. Qed.
+Example ex_e_lowered_run :
+  let '(tr, o, s, d) := exec_block 60 (fst (fst (brk_block 5 0 ex_e))) (fun _ => false) [1; 0; 0; 0; 1; 0; 0; 1] in (tr, o, d)
+  = ([1; 2; 3; 4; 5; 1; 2; 3; 4], ONormal, []).
 Proof. vm_compute. reflexivity. Qed.
 Print Assumptions break_lowering_correct.
 Print Assumptions break_lowering_correct_exec.
